@@ -185,8 +185,7 @@ def run(ctx, chk):
     # 6. gate (default configuration; C19 repeats it under other limits)
     from props.c19 import check_gate
     L = int(prog.values["CBOR_MAX_STACK_SIZE"])
-    chk.rule("C19.gate", "stack gate (shared with C19)")
-    check_gate(chk, prog, eff, L, "default(L=%d)" % L)
+    check_gate(chk, prog, eff, L, "default(L=%d)" % L, rule="C01.gate")
 
     # 7. assertions
     CS = typestate.CallSites(prog, eff, cache, H, PA)
